@@ -25,6 +25,9 @@ ASSUMPTIONS = [
     "A-NOPATCH users neither subclass nor monkeypatch library classes, and use returned futures through the consumer API only",
     "A-DUCK an object with a callable add_done_callback obeys the FUT contract",
     "A-CLOCK monotonic() is non-decreasing",
+    "A-PYVER sys.version_info comparisons are evaluated for CPython 3.12 (the interpreter of the repository's test suite)",
+    "A-FAIR a thread whose wake-up event is set is eventually scheduled (liveness is reduced to wake-order safety obligations)",
+    "A-STDLIB stdlib base-class constructors / Executor.shutdown / Thread / Event / RLock behave as documented (modelled, not verified)",
 ]
 
 
@@ -87,7 +90,17 @@ def match_known(kf, prop, unit, ob):
     return None
 
 
+_REPLAY_CACHE = {}
+
+
 def run_replay(script, env_extra=None):
+    key = (script, tuple(sorted((env_extra or {}).items())))
+    if key not in _REPLAY_CACHE:
+        _REPLAY_CACHE[key] = _run_replay(script, env_extra)
+    return _REPLAY_CACHE[key]
+
+
+def _run_replay(script, env_extra=None):
     env = dict(os.environ)
     env["PYTHONPATH"] = REPO_DIR
     env.update(env_extra or {})
@@ -264,8 +277,13 @@ def main(argv):
         "assumptions": ASSUMPTIONS + getattr(reg, "PROPERTY_ASSUMPTIONS", {}).get(prop, []),
         "wall_s": wall, "violations": len(violations),
     }
-    os.makedirs(os.path.join(ROOT, "evidence"), exist_ok=True)
-    with open(os.path.join(ROOT, "evidence", "%s.json" % prop), "w") as fh:
+    # evidence/ describes /repo only; runs on another tree (PYVC_REPO: scratch worktrees of seeded changes) and partial
+    # runs (--units) go to evidence_scratch/ (git-ignored)
+    scratch = os.path.realpath(os.environ.get("PYVC_REPO", "/repo")) != "/repo" or bool(args.units)
+    ev["repo_tree"] = os.path.realpath(os.environ.get("PYVC_REPO", "/repo"))
+    edir = os.path.join(ROOT, "evidence_scratch" if scratch else "evidence")
+    os.makedirs(edir, exist_ok=True)
+    with open(os.path.join(edir, "%s.json" % prop), "w") as fh:
         json.dump(ev, fh, indent=1)
     for l in out_lines:
         print(l)
